@@ -1,4 +1,5 @@
 import OnetVerif.Model.C08
+import OnetVerif.Shapes
 /-! Property C08 — TLS links exist only between peers that proved the keys they claim.
 Only property theorems, negation witnesses, non-vacuity examples and the lemmas they need. -/
 namespace C08
@@ -595,5 +596,46 @@ handshake 1 -/
 example : (run { relaySetting with advTls := fun _ => true } {}
     [.mkVerifier (some 1), .honest 0 1 .new, .mkVerifier (some 1), .present 1 [honestCert 1 101 (.hon 0)]]).map
       (fun w => w.acc.map (·.1)) = some [0] := by decide
+
+/-! ### the code regions the model stands for
+Regenerated from /repo's source on every run (`harness/cmd/astfacts` → `OnetVerif/Shapes.lean`): the
+calls that matter for synchronisation and data flow, the lock regions and (for decision logic) the
+conditions, in source order.  A re-ordering, a dropped call or a changed condition breaks these
+obligations even when no sampled input or schedule shows a difference; the check then searches for
+a failing input. -/
+theorem c08_shape_tls_makeVerifier :
+    Shapes.network_tls_makeVerifier =
+   ["mkNonce", "return:func,nonce"] := rfl
+
+theorem c08_shape_tls_certMaker_get :
+    Shapes.network_tls_certMaker_get =
+   ["bytes.NewBuffer", "buf.Write", "si.GetPrivate", "buf.Bytes", "schnorr.Sign", "random.New",
+     "random.Bits", "serial.SetBytes", "url.Parse", "time.Now", "Now().Add", "time.Now",
+     "Now().Add", "k.Public", "x509.CreateCertificate", "x509.ParseCertificates"] := rfl
+
+theorem c08_shape_tls_NewTLSListenerWithListenAddr :
+    Shapes.network_tls_NewTLSListenerWithListenAddr =
+   ["NewTCPListenerWithListenAddr", "tlsConfig", "cloneTLSClientConfig", "x509.NewCertPool",
+     "makeVerifier", "ClientCAs.AddCert", "tls.NewListener"] := rfl
+
+theorem c08_shape_tls_NewTLSConn :
+    Shapes.network_tls_NewTLSConn =
+   ["Address.ConnType", "us.GetPrivate", "tlsConfig", "makeVerifier", "Address.NetworkAddress",
+     "tls.DialWithDialer", "time.Sleep"] := rfl
+
+theorem c08_shape_tls_tlsConfig :
+    Shapes.network_tls_tlsConfig =
+   ["newCertMaker"] := rfl
+
+theorem c08_shape_router_Router_receiveServerIdentity :
+    Shapes.network_router_Router_receiveServerIdentity =
+   ["c.Receive", "if:(err!=nil)", "return:nil,xerrors.Errorf(\"\",err)",
+     "if:(nm.MsgType!=ServerIdentityType)",
+     "return:nil,xerrors.Errorf(\"\",nm.MsgType.String())", "if:ok", "if:ok",
+     "tlsConn.ConnectionState", "if:(len(cs.PeerCertificates)==0)",
+     "return:nil,xerrors.New(\"\")", "pubFromCN", "if:(err!=nil)",
+     "return:nil,xerrors.Errorf(\"\",err)", "if:!pub.Equal(dst.Public)",
+     "return:nil,xerrors.New(\"\")", "else", "if:!r.UnauthOk", "return:dst,nil"] := rfl
+
 
 end C08
